@@ -584,15 +584,25 @@ Definition c16_ok (t : trans) : bool :=
     | FixedPrice =>
         forallb (fun b => Bool.eqb (b_matched b) (0 <? sell_amount (a_pay_denom a) b)) bs'
     end) (settling t)
-  (* an instalment is flagged released exactly when this or an earlier operation paid it *)
-  && forallb (fun v' =>
-       match find (fun v => N.eqb (v_auction v) (v_auction v') && (v_time v =? v_time v')) (st_vqs (t_pre t)) with
-       | Some v =>
-           Bool.eqb (v_released v')
-             (v_released v || ((0 =? v_amt v) && v_released v')
-              || existsb (fun x => addr_eqb (x_from x) (Escrow Vesting (v_auction v)) && (x_amt x =? v_amt v)) (t_xfers t))
-       | None => match t_op t with OGenesis => true | _ => negb (v_released v') end
-       end) (st_vqs (t_post t)).
+  (* an instalment is flagged released exactly when it has been paid: the instalments that become released in
+     this operation are, in order, the transfers out of the vesting escrow; a flag is never cleared *)
+  && forallb (fun id =>
+       let newly := filter (fun v' =>
+                      v_released v' &&
+                      match find (fun v => N.eqb (v_auction v) (v_auction v') && (v_time v =? v_time v')) (st_vqs (t_pre t)) with
+                      | Some v => negb (v_released v)
+                      | None => true
+                      end) (vqs_of (t_post t) id) in
+       match t_op t with
+       | OGenesis => true
+       | _ =>
+         zeqb_list (filter (fun z => negb (z =? 0)) (map v_amt newly))
+                   (map x_amt (filter (fun x => addr_eqb (x_from x) (Escrow Vesting id)) (t_xfers t)))
+         && forallb (fun v => match find (fun v' => N.eqb (v_auction v) (v_auction v') && (v_time v =? v_time v')) (st_vqs (t_post t)) with
+                              | Some v' => negb (v_released v) || v_released v'
+                              | None => false
+                              end) (vqs_of (t_pre t) id)
+       end) (ids_upto (st_aseq (t_post t) + 1)).
 
 (* ---------------------------------------------------------------- C17 hooks *)
 (* the hook calls an accepted operation must have made, from the records it left behind *)
